@@ -286,6 +286,42 @@ def regex_part(rng, n, drv, res):
         if py != rep:
             k = next(i for i in range(len(py)) if py[i] != rep[i])
             res.diverge(f"regex {pat!r} on {strs[k]!r}: re.fullmatch {py[k]} Lean matcher {rep[k]}", {"pattern": pat, "input": strs[k]})
+        parse_vs_fullmatch(pat, strs, res)
+    # patterns outside the verified fragment that a command table may well contain: alternatives one of which is a prefix of
+    # another, lazy quantifiers, optional tails, captured groups - "matches the WHOLE message" means re.fullmatch, whatever a
+    # leftmost match would have stopped at
+    for pat in ("ABS|ABSOLUTE", "STOP|STOP NOW", "(a|ab)(c|bcd)?", r"(\w+?)", r"(\d+(?:\.\d+)??)", "a*?", "(?:a|aP)=?9?", r"P=(\d+?)", "x??x", "(?:9|99|999)x?", r"(\S+) (\S+?)"):
+        strs = ["ABS", "ABSOLUTE", "ABSOLUT", "STOP", "STOP NOW", "ab", "abcd", "ac", "abc", "word", "w", "1", "1.5", "12.25", "", "a", "aa", "aP=9", "aP", "P=12", "P=1",
+                "x", "xx", "9", "99x", "999", "a b", "ab cd", " ABS ", "ABS\n"]
+        res.case(("regex", pat), nontrivial=True)
+        res.count("regex-patterns-handwritten")
+        parse_vs_fullmatch(pat, strs, res)
+
+
+def parse_vs_fullmatch(pat, strs, res):
+    """tickit's own RegexCommand.parse (bytes pattern on the raw message; text pattern on the decoded, stripped message)
+    against re.fullmatch: a command matches iff its pattern matches the WHOLE message, with the groups fullmatch captures"""
+    from tickit.adapters.specifications.regex_command import RegexCommand
+    try:
+        cb = RegexCommand(pat.encode("utf-8"))
+        ct = RegexCommand(pat, format="utf-8")
+    except Exception as e:   # noqa: BLE001
+        res.notes.append(f"RegexCommand({pat!r}) could not be constructed: {type(e).__name__}")
+        return
+    rxb, rxt = re.compile(pat.encode("utf-8")), re.compile(pat)
+    for s_ in strs:
+        data = s_.encode("utf-8")
+        for kind, cmd, m in (("bytes", cb, rxb.fullmatch(data)), ("text", ct, rxt.fullmatch(s_.strip()))):
+            want = None if m is None else tuple(m.groups())
+            try:
+                got = cmd.parse(data)
+                got = None if got is None else tuple(got)
+            except Exception as e:   # noqa: BLE001
+                got = f"raised {type(e).__name__}"
+            if got != want:
+                res.violate(V("wrong-command-match", f"{kind} command {pat!r} on message {data!r}: parse -> {got}, the whole-message match gives {want}",
+                              site="RegexCommand.parse", kind=kind), {"pattern": pat, "input": s_, "parse": True})
+                return
 
 
 
@@ -598,6 +634,10 @@ def replay(payload, drv):
     c = payload["case"]
     if "http" in c:
         return {"violations": []}
+    if c.get("parse"):
+        r2 = Result()
+        parse_vs_fullmatch(c["pattern"], [c["input"]], r2)
+        return {"violations": [v["record"] for v in r2.violations]}
     cmds = COMMAND_SETS[c["set"]]
     if "chunks" in c:
         chunks = [bytes(x) for x in c["chunks"]]
